@@ -32,12 +32,15 @@ RowShape == Is("shapes") => /\ Ok /\ \A i \in 1..Len(R.out.ran) : R.out.ran[i] =
 RowC20 == Is("c20") => /\ Ok /\ R.out.joined = 1 /\ R.out.drops = R.out.expected
                        /\ R.out.reader_ok = 1          \* what a late destructor unlinked outlived a reader's critical section
                        /\ R.out.watched_dropped = 1    \* and was reclaimed exactly once afterwards
+                       /\ R.out.late_ok = 1            \* what a late destructor reads under its own (reactivated) guard outlives that guard
 \* C04 on free-running threads (races inside code that has no scheduling point): at quiescence every object
 \* was popped, dropped and freed exactly once, in that order, and no freed block was written
 RowFree == Is("free") => /\ Ok /\ R.out.max_npop <= 1 /\ R.out.max_ndrop <= 1 /\ R.out.max_nfree <= 1
                         /\ R.out.order_ok = 1 /\ R.out.uaf = 0 /\ R.out.leaked = 0
+\* C18 on free-running threads: every list element is handed to finalize exactly once (RegList.tla: Once)
+RowListFree == Is("listfree") => /\ Ok /\ R.out.max_fin = 1 /\ R.out.min_fin = 1 /\ R.out.bad_trials = 0
 V(name, ok) == ok \/ PrintT(<<"VIOL", name, 0, l>>)
-Report == V("RowFree", RowFree) /\ V("RowC07", RowC07) /\ V("RowC06", RowC06) /\ V("RowShape", RowShape) /\ V("RowC20", RowC20)
+Report == V("RowListFree", RowListFree) /\ V("RowFree", RowFree) /\ V("RowC07", RowC07) /\ V("RowC06", RowC06) /\ V("RowShape", RowShape) /\ V("RowC20", RowC20)
 Accepted == (TLCGet("stats").diameter = Len(Rec) /\ PrintT(<<"ACCEPTED", Len(Rec)>>))
             \/ PrintT(<<"REJECTED", TLCGet("stats").diameter, Len(Rec)>>)
 =============================================================================
